@@ -168,6 +168,8 @@ def analyse(F, s, classes):
             r["ret"] = _cs(r["ret"])
             for k in list(r["heap"]):
                 r["heap"][k] = _cs(r["heap"][k])
+            for b_ in r["exec"].ivar_bounds.values():
+                b_["start"], b_["end"] = _cs(b_["start"]), _cs(b_["end"])
             for site in r["exec"].sites:
                 site["facts"] = _cfacts(site["facts"])
                 site["operands"] = {k_: (_cs(v_) if isinstance(v_, tuple) and k_ not in ("array", "len") else v_) for k_, v_ in site["operands"].items()}
